@@ -81,7 +81,10 @@ def _autocorr_scan(x, P, L, min_terms_var=100.0):
         if not ok.any():
             continue
         t = np.abs(A[ok])
-        logb = np.log(2.0) - t * t / (2.0 * (V[ok] + 0.27 * t))
+        # Freedman's inequality for the martingale sum_i r_i r_{i+k} (ordered by the later agent): its
+        # predictable quadratic variation sum_i r_i^2 v_{i+k} has mean V(k) and exceeds 1.25 V(k) only
+        # with probability < exp(-n/200) (Hoeffding); the bound is therefore stated with 1.25 V(k)
+        logb = np.log(2.0) - t * t / (2.0 * (1.25 * V[ok] + 0.27 * t))
         tests += int(ok.sum())
         j = int(np.argmin(logb))
         b = float(np.exp(max(logb[j], -700.0)))
